@@ -145,6 +145,7 @@ class SimA(SimBase):
         self._init_base(handler_cfg)
         self.host, self.scheme = host, scheme
         self.body_chunks = body_chunks
+        self.client_gone_early = False
         kw = dict(server_kwargs or {})
         kw.setdefault('logger', QUIET)
         self.server = engineio.AsyncServer(async_mode='asgi', **kw)
@@ -235,6 +236,7 @@ class SimA(SimBase):
         if scope_override:
             sc.update(scope_override)
         t.scope = sc
+        t.client_gone_early = self.client_gone_early
         t.task = self.loop.create_task(self._serve(t, sc, body, ws))
         return t
 
@@ -256,6 +258,9 @@ class SimA(SimBase):
             it = iter(list(enumerate(parts)))
 
             async def receive():
+                if getattr(t, 'client_gone_early', False):
+                    # the client went away before its request body was read
+                    return {'type': 'http.disconnect'}
                 nxt = next(it, None)
                 if nxt is None:
                     await gone.wait()
@@ -306,7 +311,9 @@ class SimA(SimBase):
             await self.app(sc, receive, send)
             if ws is None:
                 t.body = b''.join(chunks)
-                if state['start'] != 1:
+                if state['start'] == 0 and t.client_gone_early:
+                    pass    # nobody is left to answer
+                elif state['start'] != 1:
                     t.proto.append('http.response.start sent %d times' %
                                    state['start'])
                 elif not state['body_done']:
